@@ -307,6 +307,27 @@ pub fn run(prop: &'static str, tier: &str) -> i32 {
             evaluate(prop, &TimeCase { proto: *p, now_ns: Some(now.to_string()), payload: format!("{{\"{}\":{}}}", claim, v) }, &mut acc);
             acc.choice_points += 1;
         }
+        // other registered claims do not decide: an issued-at in the future (a clock ahead at the issuer), an
+        // audience, a subject ... next to an acceptable exp / nbf, or alone
+        for pl in [
+            "{\"iat\":\"2999-01-01T00:00:00Z\"}",
+            "{\"iat\":\"2999-01-01T00:00:00Z\",\"exp\":\"2999-06-01T00:00:00Z\"}",
+            "{\"iat\":\"2999-01-01T00:00:00Z\",\"nbf\":\"1999-01-01T00:00:00Z\"}",
+            "{\"iat\":\"2999-01-01T00:00:00+05:30\",\"nbf\":\"1999-01-01T00:00:00Z\",\"exp\":\"2999-06-01T00:00:00Z\"}",
+            "{\"iat\":\"not a date\",\"exp\":\"2999-06-01T00:00:00Z\"}",
+            "{\"iat\":12345}",
+            "{\"aud\":[\"a\",\"b\"],\"sub\":7,\"iss\":null,\"jti\":{},\"exp\":\"2999-06-01T00:00:00Z\",\"nbf\":\"1999-01-01T00:00:00Z\"}",
+        ] {
+            evaluate(prop, &TimeCase { proto: *p, now_ns: Some(now.to_string()), payload: pl.to_string() }, &mut acc);
+            acc.choice_points += 1;
+        }
+        // numbers that look like Unix times (seconds, milliseconds) around the clock and far ahead: still numbers
+        for n in [now / S - 3600, now / S + 3600, now / S + 86_400 * 365, (now / S + 3600) * 1000, 253_402_300_799, 4_102_444_800] {
+            for form in [format!("{}", n), format!("{}.0", n), format!("{}e0", n), format!("{}.5", n)] {
+                evaluate(prop, &TimeCase { proto: *p, now_ns: Some(now.to_string()), payload: format!("{{\"{}\":{}}}", claim, form) }, &mut acc);
+                acc.choice_points += 1;
+            }
+        }
         // without the claim (and with unrelated claims only)
         for pl in ["{}", "{\"data\":\"x\"}", "{\"expx\":\"1999-01-01T00:00:00Z\",\"nbfx\":\"2999-01-01T00:00:00Z\"}"] {
             evaluate(prop, &TimeCase { proto: *p, now_ns: Some(now.to_string()), payload: pl.to_string() }, &mut acc);
